@@ -927,14 +927,13 @@ def script_program(rng, cap, n):
             v2 = rng.pick([x for x in pres if x != v1])
             used = t.labels.get(v1, [])
             cands = [l for l in SCRIPT_LABELS if l[1] not in used]
-            if used and (len(used) >= n or not cands or rng.chance(1, 4)):
-                lab = next(l for l in SCRIPT_LABELS if l[1] == rng.pick(used)) if any(l[1] in used for l in SCRIPT_LABELS) else None
-                if lab is None:
-                    continue
-            else:
-                if not cands:
-                    continue
+            used_script = [l for l in SCRIPT_LABELS if l[1] in used]
+            if used_script and (len(used) >= n or not cands or rng.chance(1, 4)):
+                lab = rng.pick(used_script)
+            elif cands and len(used) < n:
                 lab = rng.pick(cands)
+            else:
+                continue
             before = t.out_of_limits
             t.bind(v1, v2, lab[1])
             if t.out_of_limits and not before:
@@ -1067,7 +1066,10 @@ def malformed_history(rng, hid):
         cap = max(cap, 2)
     elif kind == 1:      # 17th member
         cap = 64
-        pre = gen.fill_prefix(rng, "members", n, cap)[1:] + ["ADD g 16", "BIND g 15 16 %s" % gen.lab_alpha(1 if n > 1 else 0)]
+        lab = gen.lab_alpha(1 if n > 1 else 0)
+        pre = gen.fill_prefix(rng, "members", n, cap)[1:] + ["ADD g 16"] + \
+            [rng.pick(["BIND g 15 16 %s" % lab, "BIND g 16 15 %s" % gen.lab_alpha(0), "BIND g 16 %d %s" % (rng.below(16), gen.lab_alpha(0))]),
+             "KEYS g", "PUT g 16 V01", "DATA g 16", "KEYS g"]
     elif kind == 2:      # 15th group
         cap = 64
         pre = gen.fill_prefix(rng, "groups", n, cap)[1:] + ["ADD g 28", "ADD g 29", "BIND g 28 29 %s" % gen.lab_alpha(0),
@@ -1116,7 +1118,18 @@ class C07(SpecProp):
         return hs
 
     def oracle(self, h, il):
-        return self.spec_oracle(h, il)
+        f = self.spec_oracle(h, il)
+        if f is not None:
+            return f
+        # the three overruns the property names must stop with a panic
+        sl = self.spec_lines.get(h.hid) or []
+        for i, line in enumerate(sl):
+            if "pre=0 limit:" in line and i < len(il):
+                why = line.split("pre=0 ")[1].strip()
+                if why in ("limit:id", "limit:labels", "limit:members") and not il[i].endswith("-> PANIC"):
+                    return {"reason": "%s exceeds a limit (%s) but did not stop with a panic" % (h.ops[i], why), "index": i,
+                            "expected": "PANIC", "observed": il[i][:300]}
+        return None
 
     def nontrivial(self, h, il):
         if il and il[-1].endswith("-> PANIC"):
